@@ -276,14 +276,18 @@ class ExprMixin:
         base = n['inner'][0]
         name = n['name']
         bt = self.tyof(base)
+        fd = self.ix.by_id.get(n.get('referencedMemberDecl'))
+        # a data member of reference type is stored as a pointer in the C struct: every use goes through it
+        isref = fd is not None and fd.get('kind') == 'FieldDecl' and (fd.get('type', {}).get('qualType', '').rstrip().endswith('&'))
+        wrap = (lambda e: f'(*{e})') if isref else (lambda e: e)
         if n.get('isArrow'):
             bt2 = bt.strip_ref()
             if bt2.kind == 'ptr' and self.family(bt2.sub) == 'optional':
                 raise LoweringError('-> on optional handled in operator call')
-            return f'{self.ex(base)}->{name}'
+            return wrap(f'{self.ex(base)}->{name}')
         fam = self.family(bt)
         if fam == 'pair' or fam == 'rec':
-            return f'{self.ex(base)}.{name}'
+            return wrap(f'{self.ex(base)}.{name}')
         raise LoweringError(f'member access .{name} on {bt!r}')
 
     def e_UnaryExprOrTypeTraitExpr(self, n):
